@@ -78,6 +78,11 @@ def run_property(prop, tier, runs, *, level="other", explanation="", assumptions
     cross = dict(agree=0, disagree=0, unknown=0)
     samples = []
     bounds = []
+    only = os.environ.get("VERIF_ONLY_RUN")  # development aid: substring filter on run names (never registered)
+    if only:
+        runs = [r for r in runs if only in r.name]
+        if not os.environ.get("VERIF_EVIDENCE_DIR"):
+            os.environ["VERIF_EVIDENCE_DIR"] = "/tmp/verif-partial-evidence"
     for run in runs:
         tr = Tracer()
         try:
